@@ -37,12 +37,13 @@ def main():
     sh(f'git -C /repo worktree add -q --detach {WT} HEAD')
     try:
         env = dict(os.environ, PYTHONPATH=WT, PYTHONDONTWRITEBYTECODE='1')
-        # same relative layout the sub-agent worked in: <worktree>/seed/demo.py
-        os.makedirs(os.path.join(WT, 'seed'), exist_ok=True)
-        demo = os.path.join(WT, 'seed', 'demo.py')
+        # same relative layout the sub-agent worked in: <worktree>/<rel>/demo.py
+        top = sh(f'git -C {src} rev-parse --show-toplevel').stdout.strip() or os.path.dirname(os.path.abspath(src.rstrip('/')))
+        rel = os.path.relpath(os.path.abspath(src), top)
+        os.makedirs(os.path.join(WT, rel), exist_ok=True)
+        demo = os.path.join(WT, rel, 'demo.py')
         shutil.copy(os.path.join(dst, 'demo.py'), demo)
-        src_tree = os.path.dirname(os.path.abspath(src.rstrip('/')))
-        txt = open(demo).read().replace(src_tree, WT)     # absolute paths into the agent's own worktree
+        txt = open(demo).read().replace(top, WT)     # absolute paths into the agent's own worktree
         open(demo, 'w').write(txt)
         r0 = subprocess.run(['/venv/bin/python', demo], cwd=WT, env=env, capture_output=True, text=True, timeout=600)
         meta['demo_without_patch_exit'] = r0.returncode
